@@ -202,7 +202,12 @@ def _(ctx, c):
 @st.composite
 def g_key2(draw, nr, nc):
     def ent(n):
-        t = draw(st.sampled_from(["int", "slice", "full", "list", "arr"]))
+        t = draw(st.sampled_from(["int", "slice", "full", "list", "arr", "slice", "full", "empty", "step"]))
+        if t == "empty":
+            a = draw(st.integers(0, n))
+            return dict(t="slice", v=draw(st.sampled_from([[None, 0, None], [a, a, None], [n, None, None]])))
+        if t == "step":
+            return dict(t="slice", v=draw(st.sampled_from([[None, None, 2], [None, None, -1], [1, None, 2]])))
         if t == "int":
             return dict(t="int", v=draw(st.integers(-n, n - 1)))
         if t == "full":
@@ -424,7 +429,10 @@ def g_stmset(draw, tier):
     nc = ref.prod(c["shape"][m] for m in c["cdims"])
 
     def ent(n):
-        t = draw(st.sampled_from(["int", "slice", "full", "list", "arr"]))
+        t = draw(st.sampled_from(["int", "slice", "full", "list", "arr", "int", "slice", "full", "empty"]))
+        if t == "empty":
+            a = draw(st.integers(0, n))  # (round 3, class 10) an empty range: the assignment is a no-op
+            return dict(t="slice", v=[a, a, None]), 0
         if t == "int":
             return dict(t="int", v=draw(st.integers(0, n - 1))), 1
         if t == "full":
@@ -438,7 +446,7 @@ def g_stmset(draw, tier):
 
     (a, ka), (b, kb) = ent(nr), ent(nc)
     c["key"] = dict(kind="region", v=[a, b])
-    c["vform"] = draw(st.sampled_from(["scalar", "column"]))
+    c["vform"] = draw(st.sampled_from(["scalar", "column"])) if ka * kb else "scalar"
     c["value"] = draw(st.sampled_from([3.0, -2.5, 7])) if c["vform"] == "scalar" else R.d_vals(draw, ka * kb, c["vkind"], nonzero=True)
     return c
 
